@@ -7,7 +7,7 @@ lines = out.splitlines()
 suite = next((l for l in lines if l.startswith("suite")), "")
 clean = next((l for l in lines if l.startswith("demo on clean")), "")
 patched = next((l for l in lines if l.startswith("demo on patched")), "")
-checks = {l.split()[1].rstrip(":"): ("caught" if "exit 1" in l else "missed" if "exit 0" in l else "error") for l in lines if l.startswith("check ")}
+checks = {l.split()[1].rstrip(":"): ("caught" if "exit 1 " in l else "missed" if "exit 0 " in l else "error") for l in lines if l.startswith("check ")}
 ok = "289 passed" in suite and clean.endswith("exit 0") and patched.endswith("exit 1")
 meta = json.load(open(os.path.join(src, "meta.json"))) if os.path.exists(os.path.join(src, "meta.json")) else {}
 meta.update({"seed_id": sid, "confirmed": ok, "suite_with_patch": suite, "demo_clean": clean, "demo_patched": patched,
